@@ -13,11 +13,12 @@ import Driver.CmdDM
 import Driver.CmdEvo
 import Driver.CmdCliff
 import Driver.CmdCirc
+import Driver.CmdSolver
 open Graphiq Graphiq.Proto
 
 def dispatchers : List (String → Args → Option String) :=
   [CmdTab.dispatch, CmdStab.dispatch, CmdDag.dispatch, CmdWire.dispatch, CmdExport.dispatch,
-   CmdGraph.dispatch, CmdDM.dispatch, CmdEvo.dispatch, CmdCliff.dispatch, CmdCirc.dispatch]
+   CmdGraph.dispatch, CmdDM.dispatch, CmdEvo.dispatch, CmdCliff.dispatch, CmdCirc.dispatch, CmdSolver.dispatch]
 
 def handle (line : String) : String :=
   let (cmd, a) := parseLine line
